@@ -13,7 +13,7 @@ R5  leaf-visit stage: handshake / worker protocol (C03 rules on this stage)
 import ast
 import itertools
 
-from sa import sym, report
+from sa import sym, boolalg, report
 from sa.sym import show, num, num_value, atoms_of
 from sa.teval import teval, UNKNOWN
 from sa.model import dotted, own_calls, own_nodes
@@ -54,19 +54,39 @@ def run(run):
     _r5(run)
 
 
-def _r1_r2(run):
-    project = run.project
+def _visit_eval(project):
     f = project.fn(T + ".ToastSampler.visit_callback")
-    run.note_func(f)
     ev = sym.make_evaluator(project, T, [])
-    r = ev.run(f.node)
-    pos, tile = ("sym", f.params()[1]), ("sym", f.params()[2])
+    ev.self_class = T + ".ToastSampler"      # the sampler's own helper methods belong to the callback
+    return f, ev, ev.run(f.node)
+
+
+def _flag_of(r, f):
+    """The attribute of the sampler object that decides the row reversal in visit_callback, with the terms around it:
+    (flag term or None, sampled term, stored-image term of the clobbering write)."""
+    tile = ("sym", f.params()[2])
     coords = ("call", ("sym", "toast_tile_get_coords"), (tile,), ())
     samp = ("call", ("attr", ("sym", "self"), "_sampler"), (("item", coords, 0), ("item", coords, 1)), ())
-    inv = ("attr", ("sym", "self"), "_invert_into_tiles")
     flipped = ("sub", samp, ("slice", sym.NONE, sym.NONE, num(-1)))
-    want_data = ("ite", inv, flipped, samp)
-    want_img = ("call", ("attr", ("sym", "Image"), "from_array"), (want_data,), ())
+    writes = [e for e in r.events if e.kind == "call" and e.term[1][0] == "attr" and e.term[1][2] == "write_image"]
+    img = writes[0].term[2][1] if writes and len(writes[0].term[2]) > 1 else None
+    flag = None
+    if img is not None and img[0] == "call" and img[1] == ("attr", ("sym", "Image"), "from_array") and len(img[2]) == 1:
+        d = img[2][0]
+        if d[0] == "ite" and d[2] == flipped and d[3] == samp:
+            flag = d[1]
+        elif d[0] == "ite" and d[3] == flipped and d[2] == samp:
+            flag = ("op", "not", (d[1],))
+    return flag, samp, flipped, img
+
+
+def _r1_r2(run):
+    project = run.project
+    f, ev, r = _visit_eval(project)
+    run.note_func(f)
+    pos, tile = ("sym", f.params()[1]), ("sym", f.params()[2])
+    coords = ("call", ("sym", "toast_tile_get_coords"), (tile,), ())
+    flag, samp, flipped, img = _flag_of(r, f)
     sampler_calls = [e for e in r.events if e.kind == "call" and e.term[1] == ("attr", ("sym", "self"), "_sampler")]
     writes = [e for e in r.events if e.kind == "call" and e.term[1][0] == "attr" and e.term[1][2] == "write_image"]
     updates = [e for e in r.events if e.kind == "call" and e.term[1][0] == "attr" and e.term[1][2] == "update_image"]
@@ -88,24 +108,24 @@ def _r1_r2(run):
     else:
         w, u, ui = writes[0], updates[0], upd_into[0]
         clob = ("attr", ("sym", "self"), "_clobber")
-        cw = [c for c in w.pc if c[0] != "loop"]
-        cu = [c for c in u.pc if c[0] != "loop"]
-        if cw != [(clob, True)] or cu != [(clob, False)]:
+        if boolalg.equiv(boolalg.conj(w.pc), clob) is not True or boolalg.equiv(boolalg.conj(u.pc), ("op", "not", (clob,))) is not True:
             problems.append(("mode-branches", "clobbering write / updating read-modify-write are not the two arms of `self._clobber`"))
         if not w.term[2] or w.term[2][0] != pos or not u.term[2] or u.term[2][0] != pos:
             problems.append(("store-position", "the tile is stored at %s / %s, not at the callback's own position" % (
                 show(w.term[2][0])[:40] if w.term[2] else "?", show(u.term[2][0])[:40] if u.term[2] else "?")))
-        img = w.term[2][1] if len(w.term[2]) > 1 else None
-        if img != want_img:
+        if flag is None:
             s = show(img) if img else "?"
             if img is not None and img[0] == "call" and img[2] and img[2][0] == samp:
                 problems.append(("no-row-reversal", "the sampled rows are never reversed: bottom-up (FITS) tiles are stored top-down"))
             elif img is not None and img[0] == "call" and img[2] and img[2][0] == flipped:
                 problems.append(("always-reversed", "the sampled rows are always reversed, also for top-down formats"))
-            elif img is not None and img[0] == "call" and img[2] and img[2][0] == ("ite", inv, samp, flipped):
-                problems.append(("reversal-inverted", "rows are reversed exactly when they should not be"))
             else:
-                problems.append(("stored-data", "the image stored is %s; expected Image.from_array(sampler(lon, lat)[::-1] if invert else sampler(lon, lat))" % s[:200]))
+                problems.append(("stored-data", "the image stored is %s; expected Image.from_array(sampler(lon, lat)[::-1] if <reversal flag> else sampler(lon, lat))" % s[:200]))
+        elif not (flag[0] == "attr" and flag[1] == ("sym", "self")):
+            if flag[0] == "op" and flag[1] == "not" and flag[2][0][0] == "attr" and flag[2][0][1] == ("sym", "self"):
+                pass    # negated flag: its truth table is decided by R2b
+            else:
+                problems.append(("stored-data", "rows are reversed under %s, which is not a flag of the sampler object" % show(flag)[:100]))
         kw = dict(w.term[3])
         if kw.get("format") != ("attr", ("sym", "self"), "_format"):
             problems.append(("write-format", "clobbering write does not pass format=self._format"))
@@ -113,7 +133,7 @@ def _r1_r2(run):
         if ukw.get("default") != ("const", "masked") or "masked_mode" not in ukw:
             problems.append(("update-default", "update path must read missing tiles as masked buffers of the image's mode (default='masked', masked_mode=img.mode)"))
         full = ("call", ("sym", "slice"), (sym.NONE,), ())
-        if ui.term[1][1] != want_img or len(ui.term[2]) != 5 or tuple(ui.term[2][1:]) != (full, full, full, full) \
+        if ui.term[1][1] != img or len(ui.term[2]) != 5 or tuple(ui.term[2][1:]) != (full, full, full, full) \
                 or ui.term[2][0] != ("op", "enter", (u.term,)):
             problems.append(("update-call", "update path must merge the whole sampled image into the tile read under the lock: "
                              "img.update_into_maskable_buffer(basis, :, :, :, :)"))
@@ -121,8 +141,8 @@ def _r1_r2(run):
         for kind, msg in problems:
             run.violated("C06.R1" if kind not in ("no-row-reversal", "always-reversed", "reversal-inverted") else "C06.R2", f, None, msg, kind=kind)
     else:
-        run.holds("C06.R1", f, None, "store(pos) <- Image.from_array(sampler(*coords(tile))[::-1 if invert]) ; clobber: write_image, else locked update")
-        run.holds("C06.R2", f, None, "rows reversed exactly under self._invert_into_tiles")
+        run.holds("C06.R1", f, None, "store(pos) <- Image.from_array(sampler(*coords(tile))[::-1 if flag]) ; clobber: write_image, else locked update")
+        run.holds("C06.R2", f, None, "rows reversed exactly under %s (truth table: R2b)" % show(flag))
 
 
 _OTHER = "png"
@@ -144,20 +164,29 @@ def _r2b_sampler(run):
     run.note_func(f)
     ev = sym.make_evaluator(project, T, ["toasty.image.get_format_vertical_parity_sign"])
     r = ev.run(f.node)
-    st = [e for e in r.events if e.kind == "store" and e.term[1][0] == ("attr", ("sym", "self"), "_invert_into_tiles")]
+    vf, vev, vr = _visit_eval(project)
+    flag = _flag_of(vr, vf)[0]
+    negate = False
+    if flag is not None and flag[0] == "op" and flag[1] == "not":
+        flag, negate = flag[2][0], True
+    if flag is None or not (flag[0] == "attr" and flag[1] == ("sym", "self")):
+        run.undecided("C06.R2b", f, None, "the flag deciding the row reversal in visit_callback was not identified", kind="no-invert-flag")
+        return
+    st = [e for e in r.events if e.kind == "store" and e.term[1][0] == flag]
     if not st:
-        run.undecided("C06.R2b", f, None, "self._invert_into_tiles is never assigned", kind="no-invert-flag")
+        run.undecided("C06.R2b", f, None, "%s is never assigned by the constructor" % show(flag), kind="no-invert-flag")
         return
     # join of conditional stores: the env value at the end
-    term = r.env.get(("attr", ("sym", "self"), "_invert_into_tiles"))
+    term = r.env.get(flag)
+    if negate and term is not None:
+        term = ("op", "not", (term,))
     fmt_store = r.env.get(("attr", ("sym", "self"), "_format"))
     clob_store = r.env.get(("attr", ("sym", "self"), "_clobber"))
     if term is None or fmt_store != ("sym", "format") or clob_store != ("sym", "clobber"):
         run.undecided("C06.R2b", f, None, "constructor does not store clobber/format/invert as expected", kind="ctor-shape")
         return
     # does the update path write in self._format? (look at visit_callback's update_image call)
-    vc = project.fn(T + ".ToastSampler.visit_callback")
-    rv = sym.make_evaluator(project, T, []).run(vc.node)
+    rv = vr
     upd = [e for e in rv.events if e.kind == "call" and e.term[1][0] == "attr" and e.term[1][2] == "update_image"]
     upd_uses_format = bool(upd) and dict(upd[0].term[3]).get("format") == ("attr", ("sym", "self"), "_format")
     pio = ("sym", "pio")
@@ -229,24 +258,35 @@ def _r3(run):
         if len(ctor) != 1 or len(fac) != 1 or len(vis) != 1:
             run.undecided("C06.R3", f, None, "%s: expected one pyramid factory call, one ToastSampler and one visit_leaves" % name, kind="sample-shape")
             continue
-        a = ctor[0].term[2]
-        if len(a) < 3 or a[0] != ("sym", "pio") or a[1] != ("sym", "sampler"):
+        g, cb = ev.bound_args(ctor[0].term)
+        cb = cb or {}
+        if cb.get("pio") != ("sym", "pio") or cb.get("sampler") != ("sym", "sampler"):
             problems.append(("sampler-ctor", "ToastSampler is not constructed from (pio, sampler, ...)"))
-        elif a[2] != ("const", clobber):
+        elif cb.get("clobber") != ("const", clobber):
             problems.append(("clobber-mode", "%s constructs its sampler with clobber=%s; it must %s existing tiles (%s)" % (
-                name, show(a[2]), "overwrite" if clobber else "update", "fresh layer" if clobber else "several filtered passes / chunks share tiles")))
-        fa = fac[0].term[2]
-        fk = dict(fac[0].term[3])
-        if not fa or fa[0] != ("sym", "depth"):
+                name, show(cb.get("clobber")) if cb.get("clobber") is not None else "<default>", "overwrite" if clobber else "update",
+                "fresh layer" if clobber else "several filtered passes / chunks share tiles")))
+        evq = sym.make_evaluator(project, T, [])
+        evq.ctx_module = T
+        g2, fb = evq.bound_args(("call", ("attr", ("sym", "self"), factory), fac[0].term[2], fac[0].term[3]))
+        if fb is None:
+            # Pyramid.<factory>(...) called on the class: bind by the factory's own signature
+            pf = project.funcs.get("%s.Pyramid.%s" % (P, factory))
+            fb = {}
+            if pf is not None:
+                ps = [x for x in pf.params() if x not in ("cls", "self")]
+                fb = dict(zip(ps, fac[0].term[2]))
+                fb.update(dict(fac[0].term[3]))
+        if fb.get("depth") != ("sym", "depth"):
             problems.append(("depth", "the pyramid is not built with the requested depth"))
-        if n_fargs == 2 and (len(fa) < 2 or fa[1] != ("sym", "tile_filter")):
+        if n_fargs == 2 and fb.get("tile_filter") != ("sym", "tile_filter"):
             problems.append(("filter", "the tile filter is not handed to the pyramid"))
-        if fk.get("coordsys") != ("sym", "coordsys") and not (len(fa) > n_fargs and fa[n_fargs] == ("sym", "coordsys")):
+        if fb.get("coordsys") != ("sym", "coordsys"):
             problems.append(("coordsys", "the requested coordinate system is not handed to the pyramid"))
         va = vis[0].term[2]
-        if not va or va[0] != ("attr", ctor[0].term, "visit_callback") and va[0] != ("attr", ("sym", "proc"), "visit_callback"):
-            if not (va and va[0][0] == "attr" and va[0][2] == "visit_callback"):
-                problems.append(("callback", "visit_leaves is not given the sampler's visit_callback"))
+        if not (va and va[0] == ("attr", ctor[0].extra if ctor[0].extra is not None else ctor[0].term, "visit_callback")) \
+                and not (va and va[0][0] == "attr" and va[0][2] == "visit_callback"):
+            problems.append(("callback", "visit_leaves is not given the sampler's visit_callback"))
         if dict(vis[0].term[3]).get("parallel") != ("sym", "parallel"):
             problems.append(("parallel", "the requested parallelism is not forwarded"))
         if problems:
